@@ -360,6 +360,62 @@ def shard(args):
                                 break
         except Exception as e:  # noqa
             out["violations"].append({"signature": f"C16:borrowed-link-raises:{type(e).__name__}", "detail": str(e)[:200], "replay": {"spec": spec, "ops": list(ops)}})
+        # one grouped update whose new values refer to the same object twice: two jobs moved to one server, two steps
+        # given lists that share a job — every new link must be registered on its target
+        try:
+            with watchdog(60):
+                for flavour in ("servers", "steps"):
+                    if link_state_problems(live):
+                        break
+                    sp_ = live.spec
+                    grp = None
+                    if flavour == "servers":
+                        cands = []
+                        for t_ in sorted(sp_["servers"]):
+                            movers = [j for j in sorted(sp_["jobs"]) if sp_["jobs"][j]["server"] != t_ and not str(j).endswith("_out")
+                                      and sp_["servers"][sp_["jobs"][j]["server"]].get("cls", "Server") == sp_["servers"][t_].get("cls", "Server")]
+                            if len(movers) >= 2:
+                                cands.append((t_, movers))
+                        if cands:
+                            t_, movers = rng.choice(cands)
+                            a, b = rng.sample(movers, 2)
+                            grp = {"op": "group", "kind": "jobs", "changes": [
+                                {"op": "setlink", "kind": "jobs", "name": a, "attr": "server", "target": t_},
+                                {"op": "setlink", "kind": "jobs", "name": b, "attr": "server", "target": t_}]}
+                    else:
+                        for ujn in sorted(sp_["journeys"]):
+                            steps_ = sp_["journeys"][ujn]["uj_steps"]
+                            st2 = sorted(set(steps_))
+                            own = [j for s_ in st2 for j in sp_["steps"][s_]["jobs"]]
+                            if len(st2) >= 2 and own and not str(ujn).endswith("_out"):
+                                s1, s2 = rng.sample(st2, 2)
+                                j = rng.choice(own)
+                                grp = {"op": "group", "kind": "steps", "changes": [
+                                    {"op": "setlist", "kind": "steps", "name": s1, "attr": "jobs", "items": sp_["steps"][s1]["jobs"] + [j]},
+                                    {"op": "setlist", "kind": "steps", "name": s2, "attr": "jobs", "items": [j] + sp_["steps"][s2]["jobs"]}]}
+                                break
+                    if grp is None:
+                        continue
+                    sp2 = copy.deepcopy(sp_)
+                    tmp = Live.__new__(Live)
+                    tmp.spec = sp2
+                    tmp.mirror(grp)
+                    if not specgen.spec_is_safe(sp2, realsys.unit_info) or history.has_shared_job(sp2):
+                        continue
+                    lab_ = "grouped-links-same-target:" + flavour
+                    out["methods"][lab_] = out["methods"].get(lab_, 0) + 1
+                    st_, err_ = live.apply(grp)
+                    if st_ != "ok":
+                        out["methods"][lab_ + ":refused:" + str(err_)] = out["methods"].get(lab_ + ":refused:" + str(err_), 0) + 1
+                        break
+                    ops.append(grp)
+                    bad_ = link_state_problems(live)
+                    if bad_:
+                        out["violations"].append({"signature": f"C16:{bad_[0][0]}:{lab_}", "detail": f"after one update {[(c['name'], c['attr']) for c in grp['changes']]}: {bad_[0][1]}",
+                                                  "replay": {"spec": spec, "ops": list(ops)}})
+                        break
+        except Exception as e:  # noqa
+            out["violations"].append({"signature": f"C16:grouped-links-raise:{type(e).__name__}", "detail": str(e)[:200], "replay": {"spec": spec, "ops": list(ops)}})
         # a draft container that holds the same object twice, created next to the system and deleted again:
         # its members are used by exactly what used them before
         try:
